@@ -146,3 +146,38 @@ Proof.
       specialize (IH buf ptl (seen ++ [b])). destruct (drun tl (buf, ptl, seen ++ [b])) as [[b' p] s'].
       rewrite IH, <- app_assoc. reflexivity.
 Qed.
+
+(* ---------------------------------------------------------------- the refresh debouncer *)
+(* a request is served when a refresh starts after it *)
+Fixpoint rd_unserved (tr : list rdlabel) (acc : bool) : bool :=
+  match tr with
+  | [] => acc
+  | RDRequest :: tl => rd_unserved tl true
+  | RDStart :: tl => rd_unserved tl false
+  | RDEnd :: tl => rd_unserved tl acc
+  end.
+
+Lemma rd_armed_unserved : forall tr s s', rd_run s tr = Some s' -> rd_armed s' = rd_unserved tr (rd_armed s).
+Proof.
+  induction tr as [|l tl IH]; intros s s'; simpl; [intros H; injection H as <-; reflexivity|].
+  destruct l; simpl.
+  - intros H. rewrite (IH _ _ H). reflexivity.
+  - destruct (rd_armed s && negb (rd_running s)); [|discriminate]. intros H. rewrite (IH _ _ H). reflexivity.
+  - destruct (rd_running s); [|discriminate]. intros H. rewrite (IH _ _ H). reflexivity.
+Qed.
+
+(* every request is followed by a refresh that starts after it: in every reachable state, either no request
+   is unserved, or the timer is armed - and an armed timer with the flusher idle enables a refresh start,
+   while a running refresh can always end; so at quiescence (nothing enabled but requests) all are served *)
+Lemma rd_requests_served tr s :
+  rd_run rd_init tr = Some s ->
+  rd_armed s = rd_unserved tr false
+  /\ (rd_armed s = true -> rd_running s = false -> rd_step s RDStart <> None)
+  /\ (rd_running s = true -> rd_step s RDEnd <> None)
+  /\ (rd_step s RDStart = None -> rd_step s RDEnd = None -> rd_unserved tr false = false).
+Proof.
+  intros H. pose proof (rd_armed_unserved tr rd_init s H) as Ha. simpl in Ha. split; [exact Ha|].
+  split; [intros A R; simpl; rewrite A, R; discriminate|].
+  split; [intros R; simpl; rewrite R; discriminate|].
+  rewrite <- Ha. simpl. destruct (rd_armed s), (rd_running s); simpl; intros; try reflexivity; try discriminate.
+Qed.
